@@ -81,7 +81,8 @@ ChkSynthesis(s, e, trk) ==
      (IF ok /\ e.mut = 0 /\ e.rs = 0 /\ "xfit" \in DOMAIN e /\ e.fit # e.xfit THEN {"FloorPostsAsSpecified"} ELSE {}) \cup
      (IF ok /\ e.mut = 0 /\ e.rs = 0 /\ "xyc" \in DOMAIN e /\ e.yc # e.xyc THEN {"FloorCurveAsSpecified"} ELSE {}) \cup
      (IF ok /\ e.mut = 0 /\ e.rs = 0 /\ "xrv" \in DOMAIN e /\ e.rv # e.xrv THEN {"ResidueAsSpecified"} ELSE {}) \cup
-     (IF ok /\ e.mut = 0 /\ e.rs = 0 /\ "xcv" \in DOMAIN e /\ e.cv # e.xcv THEN {"CouplingAsSpecified"} ELSE {})
+     (IF ok /\ e.mut = 0 /\ e.rs = 0 /\ "xcv" \in DOMAIN e /\ e.cv # e.xcv THEN {"CouplingAsSpecified"} ELSE {}) \cup
+     (IF ok /\ e.mut = 0 /\ e.rs = 0 /\ "xpv" \in DOMAIN e /\ e.pv # e.xpv THEN {"FloorProductAsSpecified"} ELSE {})
 DriftSynthesis(s, e, trk) ==
   IF s.nh = 3 /\ ~s.hsdirty /\ e.rs = 0 /\ e.rb = 0 /\ e.W \in {0, 1} /\ ~StateMatches(DecBlockin(s.B, s.m, e.W, e.no, e.gp, e.eos = 1, ~trk), e)
   THEN {"DecoderStateDiffersFromTranscription"} ELSE {}
